@@ -125,14 +125,27 @@ func (p *Proposal) PendingMessage() *PendingMessage {
 }
 
 func (p *Proposal) Message() (*Message, error) {
-	buf := bytes.NewBuffer(p.Data())
+	data, err := p.decompress()
+	if err != nil {
+		return nil, fmt.Errorf("Unable to decompress message: %w", err)
+	}
 	m := new(Message)
-	err := m.ReadFrom(buf)
+	err = m.ReadFrom(bytes.NewBuffer(data))
 	return m, err
 }
 
 // Data returns the decompressed raw message
+//
+// Data panics if the compressed data is corrupt, use Message to get the error.
 func (p *Proposal) Data() []byte {
+	data, err := p.decompress()
+	if err != nil {
+		panic(err)
+	}
+	return data
+}
+
+func (p *Proposal) decompress() ([]byte, error) {
 	var r io.ReadCloser
 	var err error
 
@@ -142,17 +155,16 @@ func (p *Proposal) Data() []byte {
 	default:
 		r, err = lzhuf.NewB2Reader(bytes.NewBuffer(p.compressedData))
 	}
-
 	if err != nil {
-		panic(err) //TODO: Should return error
+		return nil, err
 	}
 
 	var buf bytes.Buffer
 	if _, err := io.Copy(&buf, r); err != nil {
-		panic(err) //TODO
+		return nil, err
 	}
 
-	return buf.Bytes()
+	return buf.Bytes(), nil
 }
 
 func parseProposal(line string, prop *Proposal) (err error) {
